@@ -78,7 +78,10 @@ pub fn h_c08_store_result() {
     let cell = formula_cell(&mut ws, kind, w, h);
     let mut model = model_from_workbook(workbook_with(vec![ws], 0));
     let scalar = any_bool();
-    let result = if scalar { CalcResult::Number(any_f64()) } else { CalcResult::Array(any_number_array(any_usize_to(1) + 1, any_usize_to(1) + 1)) };
+    // a plain (non-array) formula cell only ever receives scalars or 1x1 arrays: static analysis wraps larger
+    // array results in implicit intersection (the code debug_asserts this), so larger arrays are not a reachable pre-state
+    let (rows, cols) = if kind == 0 { (1, 1) } else { (any_usize_to(1) + 1, any_usize_to(1) + 1) };
+    let result = if scalar { CalcResult::Number(any_f64()) } else { CalcResult::Array(any_number_array(rows, cols)) };
     let r = model.set_cells_with_result(CellReferenceIndex { sheet: 0, row: R0, column: C0 }, &cell, &result);
     check("C08.store.returns_ok", r.is_ok());
     let ok = stored_number_finite(&cell_at(&model, R0, C0)) & stored_number_finite(&cell_at(&model, R0, C0 + 1))
